@@ -8,6 +8,8 @@ MCQuick == {M(<<4, 5, 60, 70>>, R) : R \in {{2, 3}, {3, 4}, {1, 3}, {1, 2, 3}, {
            \cup {M(<<257, 257>>, {1}), F(<<257, 257>>), F(<<41, 41, 41>>)}
 MCAll == {M(<<4, 5, 60, 70>>, R) : R \in ProperSubsets(4)} \cup {M(<<5, 5, 60, 60>>, R) : R \in ProperSubsets(4)}
          \cup {M(<<257, 257>>, R) : R \in ProperSubsets(2)} \cup {M(<<41, 41, 41>>, R) : R \in ProperSubsets(3)}
+         \* beyond a million cells (a second size class: block sizes of 2^20)
+         \cup {M(<<8, 9, 120, 130>>, R) : R \in {{3, 4}, {1, 2}, {2, 3}, {1, 4}, {1, 2, 3}}}
          \cup {F(<<257, 257>>), F(<<41, 41, 41>>), F(<<4, 5, 60, 70>>), F(<<258, 257>>), F(<<17, 17, 17, 17>>)}
 MCMarg == {x \in MCAll : x.op = "marg"}
 MCFold == {x \in MCAll : x.op = "fold"}
